@@ -67,7 +67,7 @@ func c04History(e *core.Env, r *core.Rand, idx int64) {
 	y := r.PickInt(2024, 2024, 2023, 1999, 2400)
 	today := ref.Date{Y: y, M: r.Range(1, 12), D: 1}
 	today.D = r.PickInt(1, 15, 28, ref.DaysInMonth(today.Y, today.M))
-	if r.Chance(1, 8) {
+	if r.Chance(1, 5) {
 		today = obs.DSTDates[r.Intn(len(obs.DSTDates))]
 	}
 	d := gen.Document(r, gen.Opts{MaxRecs: r.PickInt(6, 6, 6, 14), MaxEntries: 4, Near: &today, NearSpread: r.PickInt(1, 2, 5), Sorted: r.Chance(3, 4), NoDupDates: r.Chance(2, 3), Hostile: r.Chance(2, 3), OpenRanges: 1,
@@ -146,7 +146,15 @@ func c04History(e *core.Env, r *core.Rand, idx int64) {
 			env.Today = env.Today.Plus(1) // the next day
 			base.Today = env.Today
 		}
+		dstEdge := obs.IsDSTDate(env.Today) && r.Chance(2, 3)
+		if dstEdge {
+			env.Minute = obs.NearMidnight(r.Intn(1440)) // on a day of a clock change, where "24 hours ago" and "yesterday" part ways
+		}
 		cmd := genLikelyCommand(r, model, env, !viaBin)
+		if dstEdge && cmd.Kind != "pause" && cmd.Date == nil && cmd.DateFlag == "" && r.Chance(1, 2) {
+			cmd.DateFlag = r.Pick("yesterday", "tomorrow")
+			e.Count("commands_with_yesterday_or_tomorrow_near_midnight_of_a_clock_change", 1)
+		}
 		if s == 0 && pauseFirst && !viaBin {
 			cmd = MCmd{Kind: "pause", Extend: true, Ticks: []int{0, 61, 200}}
 			env.Today, env.Minute = today, r.Range(10, 1300)
